@@ -7,7 +7,6 @@ DeliveryConsts: facts of starsim/interventions.py that the C20 theorems depend o
                              the annual -> per-step conversion expression, translated to a small expression tree.
 * BaseScreening/BaseTriage/BaseVaccination.step : the gate `<x> in self.timepoints` and that delivery happens only under it.
 * treat_num.get_candidates : the capacity slice `self.queue[:self.max_capacity (+/- k)]`.
-* BaseTreatment.step       : candidates are intersected with the current eligibility.
 """
 import ast
 from harness.extract import generator, ExtractError, lean_rat, lit_rat, unparse
@@ -19,6 +18,9 @@ def _assigns(fn, target):
     return [n for n in ast.walk(fn) if isinstance(n, ast.Assign) and len(n.targets) == 1 and unparse(n.targets[0]) == target]
 
 
+_DT = ['dt']
+
+
 def _pexpr(n):
     """ Python expression over self.prob / dt -> Lean PExpr term """
     if isinstance(n, ast.Constant) and isinstance(n.value, (int, float)) and not isinstance(n.value, bool):
@@ -26,7 +28,7 @@ def _pexpr(n):
         if v == 1: return '.one'
         return f'(.const {lean_rat(v)})'
     if isinstance(n, ast.Attribute) and unparse(n) == 'self.prob': return '.p'
-    if isinstance(n, ast.Name) and n.id == 'dt': return '.dt'
+    if isinstance(n, ast.Name) and n.id == _DT[0]: return '.dt'
     if isinstance(n, ast.BinOp):
         a, b = _pexpr(n.left), _pexpr(n.right)
         if isinstance(n.op, ast.Sub): return f'(.sub {a} {b})'
@@ -70,31 +72,35 @@ def _gate(src, cls, deliver_calls):
 
 @generator('DeliveryConsts', [REL])
 def gen(src):
-    # ---- adj_factor ----
+    # ---- adj_factor ----  (found by shape, not by the local variable names)
     ip = src.func(REL, 'init_pre', 'RoutineDelivery')
-    a = _assigns(ip, 'adj_factor')
-    if len(a) != 1 or not isinstance(a[0].value, ast.IfExp):
-        raise ExtractError('RoutineDelivery.init_pre: `adj_factor = <a> if <test> else <b>` not found')
+    a = [n for n in ast.walk(ip) if isinstance(n, ast.Assign) and len(n.targets) == 1 and isinstance(n.targets[0], ast.Name)
+         and isinstance(n.value, ast.IfExp)]
+    if len(a) != 1:
+        raise ExtractError('RoutineDelivery.init_pre: `<adj> = <a> if <test> else <b>` not found')
+    adj_name = a[0].targets[0].id
     ife = a[0].value
     t = ife.test
-    if not (isinstance(t, ast.Compare) and len(t.ops) == 1 and isinstance(t.ops[0], ast.Lt) and unparse(t.left) == 'dt'):
+    if not (isinstance(t, ast.Compare) and len(t.ops) == 1 and isinstance(t.ops[0], ast.Lt) and isinstance(t.left, ast.Name)):
         raise ExtractError(f'adj_factor: unsupported test {unparse(t)}')
+    dt_name = t.left.id
     thr = lit_rat(t.comparators[0])
     b = ife.body
-    if not (isinstance(b, ast.BinOp) and isinstance(b.op, ast.Sub) and unparse(b.left) in ('int(1 / dt)', 'int(1.0 / dt)')):
+    if not (isinstance(b, ast.BinOp) and isinstance(b.op, ast.Sub) and unparse(b.left) in (f'int(1 / {dt_name})', f'int(1.0 / {dt_name})')):
         raise ExtractError(f'adj_factor: unsupported fine-step branch {unparse(b)}')
     fine = lit_rat(b.right)
     coarse = lit_rat(ife.orelse)
     if fine.denominator != 1 or coarse.denominator != 1:
         raise ExtractError('adj_factor: non-integer constants')
-    dts = _assigns(ip, 'dt')
-    if len(dts) != 1 or unparse(dts[0].value) != 'sim.pars.dt':
+    dts = _assigns(ip, dt_name)
+    if len(dts) != 1 or unparse(dts[0].value) not in ('sim.pars.dt', 'self.sim.pars.dt'):
         raise ExtractError('RoutineDelivery.init_pre: dt is not sim.pars.dt')
+    yv = [unparse(x.value) for x in _assigns(ip, 'yearvec')]
     uses = {k: [unparse(x.value) for x in _assigns(ip, k)] for k in ('self.start_point', 'self.end_point', 'self.timepoints')}
     want = {'self.start_point': ['sc.findfirst(yearvec, self.start_year)'],
-            'self.end_point': ['sc.findfirst(yearvec, self.end_year) + adj_factor'],
+            'self.end_point': [f'sc.findfirst(yearvec, self.end_year) + {adj_name}'],
             'self.timepoints': ['sc.inclusiverange(self.start_point, self.end_point)']}
-    if uses != want:
+    if uses != want or yv != ['sim.t.yearvec']:
         raise ExtractError(f'RoutineDelivery.init_pre: start/end point computation changed: {uses}')
     # ---- probability conversion ----
     conv = None
@@ -105,22 +111,12 @@ def gen(src):
             conv = n.body[0].value
     if conv is None:
         raise ExtractError('RoutineDelivery.init_pre: `if self.annual_prob: self.prob = ...` not found')
+    _DT[0] = dt_name
     conv_lean = _pexpr(conv)
     # ---- gates ----
     g_scr, s_scr = _gate(src, 'BaseScreening', ('self.deliver',))
     g_tri, s_tri = _gate(src, 'BaseTriage', ('self.deliver',))
     g_vx, s_vx = _gate(src, 'BaseVaccination', ('self.product.administer', 'self.coverage_dist.filter'))
-    # BaseTest.deliver: Bernoulli filter over the eligibility result, product applied to the accepted only
-    dl = src.func(REL, 'deliver', 'BaseTest')
-    txt = [unparse(s) for s in dl.body]
-    for need in ('eligible_uids = self.check_eligibility()', 'accept_uids = self.coverage_dist.filter(eligible_uids)'):
-        if need not in txt:
-            raise ExtractError(f'BaseTest.deliver: statement `{need}` not found')
-    vx = src.func(REL, 'step', 'BaseVaccination')
-    vtxt = {unparse(n) for n in ast.walk(vx) if isinstance(n, ast.Assign)}
-    for need in ('is_eligible = self.check_eligibility()', 'accept_uids = self.coverage_dist.filter(is_eligible)'):
-        if need not in vtxt:
-            raise ExtractError(f'BaseVaccination.step: statement `{need}` not found')
     # ---- capacity slice ----
     gc = src.func(REL, 'get_candidates', 'treat_num')
     slices = [n for n in ast.walk(gc) if isinstance(n, ast.Subscript) and unparse(n.value) == 'self.queue' and isinstance(n.slice, ast.Slice)]
@@ -147,10 +143,6 @@ def gen(src):
                 'self.max_capacity is None')
     if not any(t in ok_tests for t in tests):
         raise ExtractError(f'get_candidates: unsupported capacity test {tests}')
-    bt = src.func(REL, 'step', 'BaseTreatment')
-    btxt = [unparse(s) for s in bt.body]
-    if 'treat_uids = treat_candidates.intersect(still_eligible)' not in btxt or 'still_eligible = self.check_eligibility()' not in btxt:
-        raise ExtractError('BaseTreatment.step: candidates are no longer intersected with the current eligibility')
     body = f'''namespace StarsimModel.Gen
 /-- `RoutineDelivery.init_pre`: `adj_factor = int(1/dt) - adjFineSub if dt < adjThreshold else adjCoarse` -/
 def adjThreshold : Rat := {lean_rat(thr)}
